@@ -10,7 +10,10 @@
 #include "../C02/exact_marcher.hpp"
 #include "verif_common.hpp"
 
+#include <algorithm>
+#include <array>
 #include <cfloat>
+#include <set>
 #include <csetjmp>
 #include <csignal>
 #include <map>
